@@ -11,9 +11,9 @@ Reads (Python `ast`; nothing is imported or executed) `neuroml/utils.py` of the 
 The translation is compositional, statement by statement and expression by expression:
 
   statements   x = e | o.f = e | d[k] = v | l.append(v) | logger.<level>(<text with pure {…}>) | if/else |
-               for x in <list object> (no else) | try / except KeyError as e (no else/finally) | raise e | return e
+               for x in <list object or local list> (no else) | try / except KeyError as e (no else/finally) | raise e | return e
   pure expr    local variable | o.f | None | e is None | e is not None | b is False | a and b | x in l | [] | {} |
-               id(e) | getattr(e, "f", None)
+               id(e) | getattr(e, "f", None) | a + b (two list objects)
   effectful    d[k] | copy.deepcopy(x) | copy.deepcopy(x, memo) |
                loaders.read_neuroml2_file(h, verbose=False, optimized=True) | _deepcopy_into(a, b)
 
@@ -27,7 +27,7 @@ import sys
 TARGETS = ["_deepcopy_into", "fix_external_morphs_biophys_in_cell"]
 
 VARS = {
-    "nml2_doc": "Val", "overwrite": "Bool", "newdoc": "Val", "referenced_ids": "List", "cell": "Val",
+    "nml2_doc": "Val", "overwrite": "Bool", "newdoc": "Val", "all_cells": "List", "referenced_ids": "List", "cell": "Val",
     "ext_morphs": "Dict", "ext_biophys": "Dict", "inc": "Val", "incdoc": "Val", "morph": "Val", "biophys": "Val",
     "e": "Err", "element": "Val", "new_parent": "Val", "memo": "Dict", "old_parent": "Val",
 }
@@ -89,6 +89,9 @@ class Tr:
             if isinstance(op, ast.In):
                 l, r = self.pure(e.left, "Val"), self.pure(rhs, "List")
                 return None if l is None or r is None else ("(P.inList %s %s)" % (l[0], r[0]), "Bool")
+        if isinstance(e, ast.BinOp) and isinstance(e.op, ast.Add):
+            l, r = self.pure(e.left, "Val"), self.pure(e.right, "Val")        # two list OBJECTS: a new Python list
+            return None if l is None or r is None else ("(P.concatItems %s %s)" % (l[0], r[0]), "List")
         if isinstance(e, ast.BoolOp) and isinstance(e.op, ast.And):
             parts = [self.pure(v, "Bool") for v in e.values]
             if any(p is None for p in parts):
@@ -214,9 +217,13 @@ class Tr:
                 return self.unsupported(st, "for ... else")
             if not (isinstance(st.target, ast.Name) and VARS.get(st.target.id) == "Val"):
                 return self.unsupported(st, "for target is not a known object variable")
-            it = self.pure(st.iter, "Val")
+            it = self._pure(st.iter)
             if it is None:
                 return "S.unsupported"
+            if it[1] == "List":                                  # a Python list held in a local variable
+                return "S.forEach V.%s %s (%s)" % (st.target.id, it[0], self.block(st.body, ind))
+            if it[1] != "Val":
+                return self.unsupported(st, "for over something that is neither a list object nor a local list")
             return "S.forEach V.%s (P.iter %s) (%s)" % (st.target.id, it[0], self.block(st.body, ind))
         if isinstance(st, ast.Try):
             if st.orelse or st.finalbody or len(st.handlers) != 1:
